@@ -35,6 +35,12 @@ extern void initPTS(unsigned);
 
 using galois::substrate::ThreadPool;
 
+#ifdef GALOIS_VERIF
+// verification hook: reports pool thread ids to a test runtime (if linked)
+extern "C" void galois_verif_thread(unsigned tid, int begin)
+    __attribute__((weak));
+#endif
+
 thread_local ThreadPool::per_signal ThreadPool::my_box;
 
 ThreadPool::ThreadPool()
@@ -116,6 +122,10 @@ static T* getNth(std::atomic<T*>& headptr, unsigned off) {
 }
 
 void ThreadPool::initThread(unsigned tid) {
+#ifdef GALOIS_VERIF
+  if (galois_verif_thread)
+    galois_verif_thread(tid, 1);
+#endif
   signals[tid] = &my_box;
   my_box.topo  = getHWTopo().threadTopoInfo[tid];
   // Initialize
